@@ -152,6 +152,7 @@ fn user_pool_emptied_by_several_withdrawals(run: &Run, thorough: bool) {
 }
 
 pub fn run(run: &Run) {
+    long_histories(run, run.thorough());
     user_pool_emptied_by_several_withdrawals(run, run.thorough());
     huge_amounts(run, run.thorough());
     // C16's scenario of a custom pool wholly held by the wallet in several coins: blocks of up to three withdrawals, among them
